@@ -1,4 +1,5 @@
 import BddVerif.Lemmas.NestedSim
+import BddVerif.Lemmas.CanonicalComplete
 /-!
 # C03 — quantification and nested apply equal operate-then-project
 
@@ -197,6 +198,43 @@ theorem nested_tables_irrelevant (L R : Arr) (n : Nat) (trig : Nat → Bool)
   rw [nested_canon L R n trig outer inner c d hL hR hc hd hid,
     nested_canon L R n trig outer' inner' c d hL hR hc' hd' hid]
 
+/-- nested application with an arbitrary trigger predicate and an inner table consistent with `or`
+    projects existentially exactly the triggered variables: a valuation satisfies the result iff SOME
+    re-assignment of the triggered variables (below `n`) satisfies the outer result -/
+theorem nested_or_spec (L R : Arr) (n : Nat) (trig : Nat → Bool) (outer inner : Op2) (c : Bool → Bool → Bool)
+    (hL : WFo L n) (hR : WFo R n) (hc : Consistent outer c) (hd : Consistent inner (fun a b => a || b))
+    (v : Nat → Bool) :
+    den (nestedApply L R trig outer inner) v = true ↔
+      ∃ w : Nat → Bool, (∀ i, ¬ (i < n ∧ trig i = true) → w i = v i) ∧
+        c (evW L n w (root L)) (evW R n w (root R)) = true := by
+  rw [nested_den L R n trig outer inner c _ hL hR hc hd Bool.or_self, Qn_or_iff]
+  rfl
+
+/-- ... and with an inner table consistent with `and`, universally -/
+theorem nested_and_spec (L R : Arr) (n : Nat) (trig : Nat → Bool) (outer inner : Op2) (c : Bool → Bool → Bool)
+    (hL : WFo L n) (hR : WFo R n) (hc : Consistent outer c) (hd : Consistent inner (fun a b => a && b))
+    (v : Nat → Bool) :
+    den (nestedApply L R trig outer inner) v = true ↔
+      ∀ w : Nat → Bool, (∀ i, ¬ (i < n ∧ trig i = true) → w i = v i) →
+        c (evW L n w (root L)) (evW R n w (root R)) = true := by
+  rw [nested_den L R n trig outer inner c _ hL hR hc hd Bool.and_self, Qn_and_iff]
+  rfl
+
+/-- the modelled panics: `nested_apply` panics exactly on a variable-count mismatch, `var_exists` /
+    `var_for_all` exactly on a variable outside the Bdd (`check_flip_bounds`) -/
+theorem panic_conditions (L R : Arr) (trig : Nat → Bool) (outer inner : Op2) (x : Nat) :
+    (nestedApplyO L R trig outer inner = none ↔ numVars L ≠ numVars R) ∧
+    (varExistsO L x = none ↔ numVars L ≤ x) ∧ (varForAllO L x = none ↔ numVars L ≤ x) := by
+  unfold nestedApplyO varExistsO varForAllO
+  refine ⟨?_, ?_, ?_⟩
+  · by_cases h : numVars L = numVars R <;> simp [h]
+  · by_cases h : x < numVars L
+    · simp [h]
+    · simp [h]; omega
+  · by_cases h : x < numVars L
+    · simp [h]
+    · simp [h]; omega
+
 /-- `binary_op_with_exists` -/
 theorem binary_op_with_exists_canon (L R : Arr) (n : Nat) (op : Op2) (c : Bool → Bool → Bool) (vars : List Nat)
     (hL : WFo L n) (hR : WFo R n) (hc : Consistent op c) :
@@ -311,6 +349,26 @@ theorem exists_singleton_eq_var_exists (A : Arr) (n x : Nat) (hA : WFo A n) (hx 
     rw [Qn_single _ n x hx _ ht _ hf v]
     simp only [outerFn, Bool.and_self]
     exact Bool.and_comm _ _
+
+/-! ## 5. every result is in the library-wide canonical form
+
+`Canonical A` is `A = canon (numVars A) (den A)`; `Drive.isCanon` (the executable test the driver runs on
+the implementation's outputs) decides it (`isCanon_iff`, `Lemmas/CanonicalComplete.lean`). -/
+
+/-- results of `binary_op_nested` (hence of `binary_op_with_exists/for_all`, `exists`, `for_all`,
+    `project`), of `var_exists`/`var_for_all` and of `fix_bdd_alignment` on a reduced array are canonical,
+    and the executable canonicity test accepts them -/
+theorem results_canonical (L R : Arr) (n : Nat) (trig : Nat → Bool) (outer inner : Op2) (c d : Bool → Bool → Bool)
+    (hL : WFo L n) (hR : WFo R n) (hc : Consistent outer c) (hd : Consistent inner d) (hid : ∀ a, d a a = a)
+    (x : Nat) (hx : x < n) (A : Arr) (r : Nat) (hA : Red A n) (hn : numVars A = n) (hr : r < A.size) :
+    Canonical (nestedApply L R trig outer inner) ∧ Drive.isCanon (nestedApply L R trig outer inner) = true ∧
+    Canonical (varExists L x) ∧ Canonical (varForAll L x) ∧ Canonical (realign A r) := by
+  have h1 : Canonical (nestedApply L R trig outer inner) := by
+    rw [nested_canon L R n trig outer inner c d hL hR hc hd hid]; exact canon_canonical' n _
+  refine ⟨h1, (isCanon_iff _).2 h1, ?_, ?_, ?_⟩
+  · rw [var_exists_canon L n x hL hx]; exact canon_canonical' n _
+  · rw [var_for_all_canon L n x hL hx]; exact canon_canonical' n _
+  · rw [realign_sim hA hn r hr]; exact canon_canonical' n _
 
 /-! ### non-vacuity -/
 
